@@ -316,6 +316,21 @@ func (F *bfn) structNonNeg(v ssa.Value, depth int) bool {
 	return false
 }
 
+// addLE records A + strict <= B for possibly negated linear forms, when a
+// difference constraint can express it.
+func (z *zone) addLE(A, B zLin, strict int64) {
+	switch {
+	case !A.neg && !B.neg:
+		z.add(A.a, B.a, B.k-A.k-strict)
+	case A.neg && !B.neg && B.a == "0": // kA - a <= kB  <=>  0 - a <= kB - kA
+		z.add("0", A.a, B.k-A.k-strict)
+	case !A.neg && A.a == "0" && B.neg: // kA <= kB - b  <=>  b - 0 <= kB - kA
+		z.add(B.a, "0", B.k-A.k-strict)
+	case A.neg && B.neg: // kA - a <= kB - b  <=>  b - a <= kB - kA
+		z.add(B.a, A.a, B.k-A.k-strict)
+	}
+}
+
 // proveLE proves A <= B for possibly negated linear forms.
 func (z *zone) proveLE(A, B zLin) bool {
 	switch {
@@ -626,6 +641,23 @@ func (F *bfn) condFacts(z *zone, cond ssa.Value, truth bool) {
 			}
 		}
 		l, r := F.linear(x.X), F.linear(x.Y)
+		if l.neg || r.neg {
+			// forms `k - a`: only the combinations a zone can express
+			switch op {
+			case token.LSS:
+				z.addLE(l, r, 1)
+			case token.LEQ:
+				z.addLE(l, r, 0)
+			case token.GTR:
+				z.addLE(r, l, 1)
+			case token.GEQ:
+				z.addLE(r, l, 0)
+			case token.EQL:
+				z.addLE(l, r, 0)
+				z.addLE(r, l, 0)
+			}
+			return
+		}
 		switch op {
 		case token.LSS:
 			z.add(l.a, r.a, r.k-l.k-1)
@@ -804,7 +836,21 @@ func (F *bfn) noKillBetween(first, second ssa.Instruction, key string) bool {
 		// if the block is in a cycle, a path first→…→back→second would need to leave and re-enter; first dominates second in straight line
 		return true
 	}
-	r1 := reachable(b1)
+	// blocks on a path from `first` to `second` that does not execute `first`
+	// again in between (a path that comes back to b1 re-establishes the value)
+	r1 := map[*ssa.BasicBlock]bool{b1: true}
+	{
+		st := append([]*ssa.BasicBlock{}, b1.Succs...)
+		for len(st) > 0 {
+			x := st[len(st)-1]
+			st = st[:len(st)-1]
+			if r1[x] {
+				continue
+			}
+			r1[x] = true
+			st = append(st, x.Succs...)
+		}
+	}
 	canReach := map[*ssa.BasicBlock]bool{}
 	st := append([]*ssa.BasicBlock{}, b2.Preds...)
 	for len(st) > 0 {
@@ -814,7 +860,9 @@ func (F *bfn) noKillBetween(first, second ssa.Instruction, key string) bool {
 			continue
 		}
 		canReach[x] = true
-		st = append(st, x.Preds...)
+		if x != b1 {
+			st = append(st, x.Preds...)
+		}
 	}
 	for blk := range r1 {
 		if blk != b1 && blk != b2 && canReach[blk] {
